@@ -1876,6 +1876,24 @@ def gen_attr(E, g, name):
     raise Unsupported('generator attribute %s' % name)
 
 
+def narrow_opaque_exception(E, exc, cls):
+    """An application exception turns out (on this path) to be an instance of the library class `cls`: give it the
+    attributes instances of that class carry - with arbitrary values."""
+    exc.cls = cls
+    if any(c.name == 'RSocketProtocolError' for c in cls.mro):
+        codes = E.lookup('rsocket/error_codes.py::ErrorCode').members
+        if cls.name == 'RSocketStreamIdInUse':
+            exc.attrs.setdefault('error_code', codes['REJECTED'])
+            exc.attrs.setdefault('stream_id', E.fresh_int('exc.stream_id'))
+        else:
+            # any protocol error code the application likes (one per path)
+            names = sorted(codes)
+            exc.attrs.setdefault('error_code', codes[names[E.path.choice(len(names), 'application-exception-error-code')]])
+        exc.attrs.setdefault('data', [None, 'application text'][E.path.choice(2, 'application-exception-data')])
+    for nm in ('route_id', 'method_name', 'mimetype', 'mimetype_id', 'auth_type_id', 'frame_type_id'):
+        pass
+
+
 # =========================================================================== collections.deque (concrete length, optional maxlen)
 
 def _deque_ctor(E, cls, args, kwargs):
@@ -2094,7 +2112,7 @@ def make_builtins(E):
             raise Unsupported('isinstance(_, %s)' % nm)
         if isinstance(t, ENG.PyClass):
             if isinstance(v, SObj):
-                return v.cls.issubclass(t)
+                return E.instance_of_class(v, t)
             if isinstance(v, EnumMember):
                 return v.cls.issubclass(t)
             if isinstance(v, SOpaque):
